@@ -211,6 +211,51 @@ pub fn build(g: &Grammar, thorough: bool) -> Vec<Case10> {
             }
         }
     }
+    // ---- B2: a function whose only user is the FUNCTION_LIST of a group, x what keeps that group (nothing, ROOT, USER_RIGHTS, being
+    // the sub-group of a kept group) x the content of group and function: the decisions about groups and about functions meet here
+    for gcontent in 0..3 {
+        for keep in 0..5 {
+            for fcontent in 0..5 {
+                for other_user in 0..2 {
+                    let mut m = e("MEASUREMENT", "M", "c1");
+                    if other_user == 1 {
+                        m = m.kid(kl("FUNCTION_LIST", &["F0"]));
+                    }
+                    let mut g0 = e("GROUP", "G0", "c1").kid(kl("FUNCTION_LIST", &["F0"]));
+                    match gcontent {
+                        1 => g0 = g0.kid(kl("REF_MEASUREMENT", &["M"])),
+                        2 => g0 = g0.kid(kl("REF_MEASUREMENT", &["NOPE"])),
+                        _ => {}
+                    }
+                    let mut elems = vec![m];
+                    match keep {
+                        1 => g0 = g0.kid(k("ROOT")),
+                        2 => elems.push(e("USER_RIGHTS", "U", "c1").kid(kl("REF_GROUP", &["G0"]))),
+                        3 => elems.push(e("GROUP", "GP", "c1").kid(k("ROOT")).kid(kl("REF_MEASUREMENT", &["M"])).kid(kl("SUB_GROUP", &["G0"]))),
+                        4 => elems.push(e("GROUP", "GP", "c1").kid(kl("SUB_GROUP", &["G0"]))),
+                        _ => {}
+                    }
+                    elems.push(g0);
+                    let mut f0 = e("FUNCTION", "F0", "c1");
+                    match fcontent {
+                        1 => f0 = f0.kid(kl("IN_MEASUREMENT", &["M"])),
+                        2 => f0 = f0.kid(kl("DEF_CHARACTERISTIC", &["NOPE"])),
+                        3 => {
+                            f0 = f0.kid(kl("SUB_FUNCTION", &["F1"]));
+                            elems.push(e("FUNCTION", "F1", "c1").kid(kl("IN_MEASUREMENT", &["M"])));
+                        }
+                        4 => {
+                            f0 = f0.kid(kl("SUB_FUNCTION", &["F1"]));
+                            elems.push(e("FUNCTION", "F1", "c1"));
+                        }
+                        _ => {}
+                    }
+                    elems.push(f0);
+                    out.push(Case10 { label: format!("group G0 (content {gcontent}, kept by {keep}) lists function F0 (content {fcontent}), other user {other_user}"), family: "group-function".into(), text: file_text(g, "m", &elems) });
+                }
+            }
+        }
+    }
     // ---- C: unit chains
     let unames = ["U0", "U1", "U2"];
     for refs in 0..64usize {
@@ -236,8 +281,45 @@ pub fn build(g: &Grammar, thorough: bool) -> Vec<Case10> {
         if !helper_ns(ns) {
             continue;
         }
+        // the referrer as it is, and (mode "used") with every item of every enumeration parameter of the referrer and of its
+        // sub-elements (conversion types, axis kinds ..): whether a reference counts as a use must not depend on them
+        let mut variants: Vec<(String, ESpec)> = vec![(String::new(), referrer.clone())];
+        {
+            let enum_params = |tag: &str| -> Vec<(String, Vec<String>)> {
+                let Some(el) = g.get_elem(tag) else { return vec![] };
+                el.items
+                    .iter()
+                    .filter_map(|it| match it {
+                        vcore::grammar::Item::Single { ty: vcore::grammar::PType::Enum(en), name } => Some((vcore::grammar::make_varname(name), g.enumdef(en).items.iter().filter(|i| i.in_version(5)).map(|i| i.name.clone()).collect())),
+                        _ => None,
+                    })
+                    .collect()
+            };
+            for (field, items) in enum_params(&referrer.tag) {
+                for it in items {
+                    let mut r = referrer.clone();
+                    r.set.retain(|(f, _)| f != &field);
+                    r.set.push((field.clone(), it.clone()));
+                    variants.push((format!(", {field}={it}"), r));
+                }
+            }
+            for (ki, kid) in referrer.kids.iter().enumerate() {
+                for (field, items) in enum_params(&kid.tag) {
+                    for it in items {
+                        let mut r = referrer.clone();
+                        r.kids[ki].set.retain(|(f, _)| f != &field);
+                        r.kids[ki].set.push((field.clone(), it.clone()));
+                        variants.push((format!(", {}.{field}={it}", kid.tag), r));
+                    }
+                }
+            }
+        }
         for tk in kinds_of(ns) {
+            for (vn, referrer) in &variants {
             for mode in ["used", "unused", "dangling", "used-by-removable"] {
+                if !vn.is_empty() && mode != "used" {
+                    continue;
+                }
                 // "used-by-removable": the only user is itself a helper that nothing keeps alive, so both have to go in one run
                 if mode == "used-by-removable" && !matches!(referrer.tag.as_str(), "COMPU_METHOD" | "UNIT" | "GROUP" | "FUNCTION" | "COMPU_TAB" | "COMPU_VTAB" | "COMPU_VTAB_RANGE" | "RECORD_LAYOUT") {
                     continue;
@@ -279,7 +361,8 @@ pub fn build(g: &Grammar, thorough: bool) -> Vec<Case10> {
                     }
                     elems.push(r);
                 }
-                out.push(Case10 { label: format!("usage {label} -> {tk} X [{mode}]"), family: "usage-position".into(), text: file_text(g, "m", &elems) });
+                out.push(Case10 { label: format!("usage {label} -> {tk} X [{mode}]{vn}"), family: "usage-position".into(), text: file_text(g, "m", &elems) });
+            }
             }
         }
     }
